@@ -172,14 +172,14 @@ func ruleConstants(r *core.Run) {
 	}
 	info := pk.TypesInfo
 	want := map[string]string{
-		"validate.EnumRules.DefinedOnly":   "true",
-		"validate.StringRules_Uuid.Uuid":   "true",
-		"validate.StringRules.MinLen":      ".Rules.MinLength",
-		"validate.StringRules.MaxLen":      ".Rules.MaxLength",
-		"validate.StringRules.Pattern":     ".Rules.Pattern",
-		"validate.BytesRules.MinLen":       ".Rules.MinLength",
-		"validate.BytesRules.MaxLen":       ".Rules.MaxLength",
-		"validate.BoolRules.Const":         ".Rules.Const",
+		"validate.EnumRules.DefinedOnly": "true",
+		"validate.StringRules_Uuid.Uuid": "true",
+		"validate.StringRules.MinLen":    ".Rules.MinLength",
+		"validate.StringRules.MaxLen":    ".Rules.MaxLength",
+		"validate.StringRules.Pattern":   ".Rules.Pattern",
+		"validate.BytesRules.MinLen":     ".Rules.MinLength",
+		"validate.BytesRules.MaxLen":     ".Rules.MaxLength",
+		"validate.BoolRules.Const":       ".Rules.Const",
 	}
 	seen := map[string]bool{}
 	ast.Inspect(core.TreeBody(pk, fd), func(n ast.Node) bool {
